@@ -15,12 +15,15 @@ def validate_encoded(string):
       " for f: floats; for csi: signed integers; for CSI: unsigned integers)")
 
 def validate_decoded(numeric_array):
-  if not isinstance(numeric_array, gfapy.NumericArray):
+  if isinstance(numeric_array, gfapy.NumericArray):
+    numeric_array.validate()
+  elif isinstance(numeric_array, list):
+    gfapy.NumericArray(numeric_array).validate()
+  else:
     raise gfapy.TypeError(
       "the class {} is incompatible with the datatype\n"
       .format(numeric_array.__class__.__name__)+
-      "(accepted classes: gfapy.NumericArray)")
-  numeric_array.validate()
+      "(accepted classes: list, gfapy.NumericArray)")
 
 def unsafe_encode(obj):
   if isinstance(obj, gfapy.NumericArray):
